@@ -75,8 +75,9 @@ inline void shift_right(T *first, SizeType n, SizeType count) noexcept {
 template <class T, class SizeType, typename std::enable_if<!amc::is_trivially_relocatable<T>::value, bool>::type = true>
 inline void fill_after_shift(T *first, SizeType n, SizeType count, const T &v) {
   if (n < count) {
-    std::uninitialized_fill_n(first + n, count - n, v);
+    // assign first, so that the raw part stays raw if an assignment throws (needed by unshift_right)
     std::fill_n(first, n, v);
+    std::uninitialized_fill_n(first + n, count - n, v);
   } else {
     std::fill_n(first, count, v);
   }
@@ -143,6 +144,21 @@ inline void destroy_after_shift(T *pos) {
 
 template <class T, typename std::enable_if<amc::is_trivially_relocatable<T>::value, bool>::type = true>
 inline void destroy_after_shift(T *) {}
+
+/// Cancel a 'shift_right' of 'n' elements by 'count' slots starting at 'first', when the insertion of the new elements
+/// failed: move the shifted elements back to their initial position and leave only raw memory after them.
+/// Requirements: the first min(n, count) slots at 'first' hold initialized objects (possibly moved-from or partially
+/// assigned) for non trivially relocatable types, the other vacated slots are raw memory.
+template <class T, class SizeType, typename std::enable_if<!amc::is_trivially_relocatable<T>::value, bool>::type = true>
+void unshift_right(T *first, SizeType n, SizeType count) noexcept(is_shift_nothrow<T>::value) {
+  std::move(first + count, first + count + n, first);
+  amc::destroy_n(first + std::max(n, count), std::min(n, count));
+}
+
+template <class T, class SizeType, typename std::enable_if<amc::is_trivially_relocatable<T>::value, bool>::type = true>
+void unshift_right(T *first, SizeType n, SizeType count) noexcept {
+  (void)amc::uninitialized_relocate_n(first + count, n, first);
+}
 
 /// Shift 'n' elements starting at 'first' one slot back to the left
 /// Requirements: n != 0 with one slot of initialized memory at first - 1
@@ -1308,7 +1324,12 @@ class VectorImpl : public VectorDestr<T, Alloc, SizeType, WithInlineElements, Gr
           pV += count;  // 'v' is one of our elements which is about to be shifted
         }
         shift_right(pos, nElemsToShift, count);
-        fill_after_shift(pos, nElemsToShift, count, *pV);
+        try {
+          fill_after_shift(pos, nElemsToShift, count, *pV);
+        } catch (...) {
+          unshift_right(pos, nElemsToShift, count);
+          throw;
+        }
       }
       this->setSize(this->size() + count);
     } else {
@@ -1337,7 +1358,12 @@ class VectorImpl : public VectorDestr<T, Alloc, SizeType, WithInlineElements, Gr
         amc::uninitialized_copy_n(first, count, pos);
       } else {
         shift_right(pos, nElemsToShift, static_cast<SizeType>(count));
-        copy_after_shift(first, nElemsToShift, static_cast<SizeType>(count), pos);
+        try {
+          copy_after_shift(first, nElemsToShift, static_cast<SizeType>(count), pos);
+        } catch (...) {
+          unshift_right(pos, nElemsToShift, static_cast<SizeType>(count));
+          throw;
+        }
       }
       this->setSize(static_cast<SizeType>(this->size() + count));
     } else {
